@@ -14,5 +14,6 @@ func init() {
 		LockClosures(c, "R-LOCK", fns, 4)
 		NextGuard(c, "R-NEXTGUARD", libPkgs(c))
 		PanicSafeLock(c, "R-PANICSAFE", fns, 4)
+		CacheGuard(c, "R-CACHEGUARD", libPkgs(c), 2)
 	})
 }
